@@ -23,6 +23,7 @@ CONFIGS = {
     "misuse": dict(callers="{1}", calls=6, inv=1, exits=0, timers=0, race="FALSE", misuse="TRUE"),
     "race":   dict(callers="{1}", calls=5, inv=2, exits=0, timers=1, race="TRUE", misuse="FALSE"),
     "faults": dict(callers="{1}", calls=6, inv=2, exits=1, timers=1, race="FALSE", misuse="FALSE"),
+    "two":    dict(callers="{1, 2}", calls=5, inv=2, exits=0, timers=1, race="FALSE", misuse="FALSE"),
     "deep":   dict(callers="{1}", calls=8, inv=2, exits=1, timers=1, race="TRUE", misuse="FALSE"),
     # simulation only (lib/mcsim.py): bounds that exhaustive search could not cover
     "sim":    dict(callers="{1}", calls=16, inv=3, exits=1, timers=1, race="FALSE", misuse="TRUE"),
@@ -72,38 +73,33 @@ def run(name, invariants, constraint=None, asfound="{}", timeout=900, keep=False
     return res
 
 
-def check(ctx, invariants, tier=None):
-    """Model-check the invariants in the tier's configurations; handles the recorded design-level finding."""
-    names = THOROUGH if (tier or ctx.tier) == "thorough" else QUICK
-    known_inv = {}
+def check(ctx, invariants, tier=None, extra_configs=()):
+    """Model-check the invariants in the tier's configurations (+ extra_configs).
+
+    Recorded findings (KNOWN_FINDINGS.json, kind known, match.mc = {invariant, config, under}) are demonstrated first:
+    the invariant must be violated in that configuration (under the given weaker constraint) -> KNOWN-FINDING.  Then
+    every configuration is explored with the behaviours of all recorded findings cut off (CONSTRAINT
+    KnownFindingsCutOff) and all invariants must hold."""
+    names = list(THOROUGH if (tier or ctx.tier) == "thorough" else QUICK) + [c for c in extra_configs]
     for f in ctx.findings:
-        if f.get("kind") == "known" and f.get("match", {}).get("mc_invariant"):
-            known_inv[f["match"]["mc_invariant"]] = f
-    for name in names:
-        inv = list(invariants)
-        constraint = None
-        hit = [i for i in inv if i in known_inv]
-        if hit:
-            # first: is the recorded defect (still) visible in the model?  then explore without its behaviours
-            r0 = run(name, hit)
-            ctx.add_tlc(r0, "MC_Rapid/%s/%s" % (name, "+".join(hit)))
-            if r0.violation in hit:
-                f = known_inv[r0.violation]
-                ctx.known_finding(f, "TLC: invariant %s of spec/MC_Rapid.tla is violated by the model of the code as it is "
-                                     "(configuration %s, counterexample of %d states)" % (r0.violation, name, len(r0.trace)))
-            elif r0.violation or r0.error:
-                raise Inconclusive("MC_Rapid/%s: %s" % (name, r0.violation or r0.error))
-            inv = [i for i in inv if i not in hit]
-            constraint = hit[0]
-        else:
-            # the behaviours of the recorded findings are cut off in every configuration
-            constraint = next(iter(known_inv), None)
-        if not inv:
+        mc = f.get("match", {}).get("mc") if f.get("kind") == "known" else None
+        if not mc or mc["invariant"] not in invariants or mc["config"] not in names:
             continue
-        r = run(name, inv, constraint)
+        r0 = run(mc["config"], [mc["invariant"]], constraint=mc.get("under"))
+        ctx.add_tlc(r0, "MC_Rapid/%s/%s" % (mc["config"], mc["invariant"]))
+        if r0.violation == mc["invariant"]:
+            ctx.known_finding(f, "TLC: invariant %s of spec/MC_Rapid.tla is violated by the model of the code as it is "
+                                 "(configuration %s, counterexample of %d states)" % (r0.violation, mc["config"], len(r0.trace)))
+        elif r0.violation:
+            raise Inconclusive("MC_Rapid/%s: %s" % (mc["config"], r0.violation))
+    # (TLC evaluates invariants also on the states that a CONSTRAINT cuts off: the predicate of the cut-off itself
+    #  cannot be an invariant of that run)
+    invariants = [i for i in invariants if i != "NoGhostInvoke"]
+    for name in names:
+        r = run(name, list(invariants), "KnownFindingsCutOff")
         ctx.add_tlc(r, "MC_Rapid/%s" % name)
-        log("E1 MC_Rapid/%s: %d distinct states, %d generated, depth %d, %.1fs, invariants %s%s"
-            % (name, r.distinct, r.generated, r.depth, r.wall_s, ",".join(inv), (" under CONSTRAINT " + constraint) if constraint else ""))
+        log("E1 MC_Rapid/%s: %d distinct states, %d generated, depth %d, %.1fs, invariants %s under CONSTRAINT KnownFindingsCutOff"
+            % (name, r.distinct, r.generated, r.depth, r.wall_s, ",".join(invariants)))
         if r.violation:
             raise Inconclusive("MC_Rapid/%s: invariant %s is violated by the specification itself; no recorded finding explains it "
                                "(the checks do not depend on /repo here: specification and findings file disagree)"
